@@ -1,8 +1,8 @@
 """Unit-local extraction plugin shared by the UdpEngine units (udp_close, udp_send, udp_recv): RAII scope exit of lock guards (R11).
 
 `std::lock_guard<std::mutex> g(_cbMutex);` / `std::unique_lock<std::shared_mutex> wl(_sessionRwMutex);` are rewritten by declared rules into
-`iora_ulock g = iora_ulock_make(&self->_cbMutex);`.  C has no destructors, so this hook makes the scope exit explicit: the call
-`iora_ulock_dtor(&g);` is inserted immediately before the `}` that closes the block in which the guard was declared.
+`IORA_LOCK_GUARD(g, self->_cbMutex);`.  C has no destructors, so this hook makes the scope exit explicit: the statement
+`IORA_UNLOCK_GUARD(g, self->_cbMutex);` is inserted immediately before the `}` that closes the block in which the guard was declared.
 The engine only uses guards in small nested blocks (`{ guard; one statement; }`).  A guard whose scope contains a jump
 (`return`, `break`, `continue`, `goto`) or that is declared at function level is outside the subset (extraction break, exit 2).
 Nothing else is added, removed or reordered."""
@@ -16,11 +16,13 @@ def hook_before_loops(t, rw):
     n = 0
     while i < len(out):
         x = out[i]
-        if x.kind == 'id' and x.text == 'iora_ulock' and i + 2 < len(out) and out[i + 1].kind == 'id' and out[i + 2].text == '=':
-            name = out[i + 1].text
+        if x.kind == 'id' and x.text == 'IORA_LOCK_GUARD' and i + 1 < len(out) and out[i + 1].text == '(':
+            rp = match_close(out, i + 1)
+            args = out[i + 2:rp]
+            name = args[0].text
             # closing brace of the enclosing block
             depth = 0
-            j = i
+            j = rp
             close = None
             while j < len(out):
                 y = out[j]
@@ -38,8 +40,11 @@ def hook_before_loops(t, rw):
             if close is None:
                 raise ExtractionBreak(f"{rw.prefix}: lock guard `{name}` declared at function level is outside the subset")
             L = out[close].line
-            out[close:close] = [Tok('id', 'iora_ulock_dtor', L, final=True), Tok('op', '(', L), Tok('op', '&', L), Tok('id', name, L, final=True),
-                                Tok('op', ')', L), Tok('op', ';', L)]
+            ins = [Tok('id', 'IORA_UNLOCK_GUARD', L, final=True), Tok('op', '(', L)]
+            for a in args:
+                ins.append(Tok(a.kind, a.text, L, ctype=a.ctype, final=True))
+            ins += [Tok('op', ')', L), Tok('op', ';', L)]
+            out[close:close] = ins
             n += 1
         i += 1
     if n:
